@@ -144,6 +144,13 @@ class Interp:
                 i = self.arith(env, st['ch'][0], depth + 1)
                 return (-i[1], -i[0]) if i else tr
             return tr
+        if k == 'CallExpr' and (st.get('callee') or '').split('<')[0] in ('std::min', 'std::max') and len(st.get('args', ())) == 2:
+            a, b = self.arith(env, st['args'][0], depth + 1), self.arith(env, st['args'][1], depth + 1)
+            if a is None or b is None:
+                return tr
+            if st['callee'].startswith('std::min'):
+                return (min(a[0], b[0]), min(a[1], b[1]))
+            return (max(a[0], b[0]), max(a[1], b[1]))
         if k == 'ConditionalOperator':
             a, b = self.arith(env, st['ch'][1], depth + 1), self.arith(env, st['ch'][2], depth + 1)
             if a is None or b is None:
